@@ -26,6 +26,10 @@ pub enum ChildOutcome {
 static COUNTER: std::sync::atomic::AtomicU64 = std::sync::atomic::AtomicU64::new(0);
 
 fn scratch_dir() -> String {
+    if let Ok(d) = std::env::var("VERIF_SCRATCH_DIR") {
+        let _ = std::fs::create_dir_all(&d);
+        return d;
+    }
     let root = if std::path::Path::new("/dev/shm").is_dir() { "/dev/shm" } else { "/tmp" };
     let d = format!("{}/verif-harness-{}", root, std::process::id());
     let _ = std::fs::create_dir_all(&d);
